@@ -247,6 +247,23 @@ def cases(tier, cfg):
                             f"static FX_NOINLINE void call(const TT& a, const TT& b, T c, RT& r) {{ r {op} c; }} "
                             f"static T ref(T x, T y, T c, bool& s) {{ return c; }} }}; c02::run<K>(fx, {FORMS[f]}, {cls});")
                     out.append(Case(f"C02/scalar_assign[{t}|shape={n}|form={f}]", body, route=f"scalar.{f}", cost=0.15))
+            # the same with a number of another arithmetic type (the operand-type axis: unsigned and wider / narrower scalars)
+            if not cplx:
+                utypes = [("int", "int"), ("unsigned", "unsigned"), ("size_t", "usize")] + ([("double", "double")] if t == "f32" else []) + \
+                         ([("float", "float")] if t == "f64" else []) + ([("long long", "llong")] if t in ("i32", "f64") else [])
+                for n in sorted({1, W + 1, 2 * W + 3}):
+                    for (U, uname) in utypes:
+                        for f in ("assign", "add", "sub", "mul", "div"):
+                            if tier == "quick" and n != W + 1 and not (f == "sub" and n == 2 * W + 3):
+                                continue
+                            lit = "4" if f == "div" else "3"
+                            op = {"assign": "=", "add": "+=", "sub": "-=", "mul": "*=", "div": "/="}[f]
+                            cls = EXACT_SZ       # the divisor is a power of two: multiplying by its reciprocal is exact as well
+                            ct = CTYPE[t]
+                            body = (f"struct K {{ using T = {ct}; using TT = Fastor::Tensor<{ct},{n}>; using RT = TT; "
+                                    f"static FX_NOINLINE void call(const TT& a, const TT& b, T c, RT& r) {{ {U} u = ({U}){lit}; fx::escape(&u); r {op} u; }} "
+                                    f"static T ref(T x, T y, T c, bool& s) {{ return (T){lit}; }} }}; c02::run<K>(fx, {FORMS[f]}, {cls});")
+                            out.append(Case(f"C02/scalar_assign[{t}|shape={n}|form={f}|scalar={uname}]", body, route=f"scalar.{f}.{uname}", cost=0.15))
             e = bi("*", bi("+", A, B), C)
             for dims in ((2, W + 1), (W + 1, 2), (3, 1, W), (2, 2, W + 1)):
                 for f in ("assign", "add"):
